@@ -273,6 +273,10 @@ func init() {
 				}
 				if ops[i].M == "xsig_unknown" {
 					ops[i].MV = uint64(r.Range(1, 90))
+					if r.Chance(0.3) {
+						// around the note format's limit of 100 signature lines (the log's own line and the witness's count too)
+						ops[i].MV = uint64(r.Range(94, 100))
+					}
 				}
 				if r.Chance(0.3) {
 					ops[i].D = 0
@@ -326,6 +330,7 @@ func init() {
 				return out
 			}
 			out.Viol = append(out.Viol, oracleC04(res)...)
+			out.Viol = append(out.Viol, servedIsStored(res)...)
 			jumped := false
 			for _, r := range res.Hist {
 				if r.Op.K == "jump" {
@@ -883,6 +888,10 @@ func init() {
 				return out
 			}
 			out.Viol = append(out.Viol, oracleC05(res, &out.Stats)...)
+			for _, v := range servedIsStored(res) {
+				v.Class, v.Sig = "stale_read", "stale_read/"+v.Sig
+				out.Viol = append(out.Viol, v)
+			}
 			overl := false
 			for i, a := range res.Hist {
 				for _, b := range res.Hist[i+1:] {
